@@ -1,11 +1,16 @@
 //! Correspondence harness for engine `segtree` (properties C01, C02): drives the real
-//! `rlib_segtree::Segtree` with the six built-in items at `i64`, two `Combinator` nestings and the two exotic
+//! `rlib_segtree::Segtree` with the six built-in items at `i64`, three `Combinator` nestings and the two exotic
 //! lawful items of `items.rs`, on operation histories `item ctor n v.. ; op ; op ; ...`.
 //!
-//! raw  = `{:?}` of every returned item / answer + probe log of every search / the `debug()` string
-//! view = observable value (`.v`, `(.v,.len)`, ...) / answer + `P` when every probe equals the aggregate of a
-//!        range of the plain shadow vector starting at `l` (ending at `r`), `nm` when the predicate is not
-//!        monotone on the shadow vector (outside C02's domain).
+//! raw  = `{:?}` of every returned item / answer + `{:?}` of every probe of a search / the `debug()` string
+//! view = observable value (`.v`, `(.v,.len)`, ...) of an `ask`; for a search: answer (or `nm` when the predicate is
+//!        not monotone on the plain shadow vector: outside C02's domain), the observable values of all probes in call
+//!        order, and `P` when every probe equals the aggregate of a range of the shadow vector starting at `l`
+//!        (ending at `r`); `ood` for `set`/`modify`/`ask` outside `0 <= l <= r < n` (outside the stated domain).
+//!
+//! The shadow vector and its range aggregates are computed with the harness's **own plain implementation** of every
+//! item's observable algebra (`o_op`, `o_act`, `o_dflt` below) — never with the `merge`/`modify`/`default` of the
+//! implementation under test.
 #[path = "../../common/mod.rs"]
 mod common;
 mod items;
@@ -16,7 +21,6 @@ use rlib_segtree::{Segtree, SegtreeItem};
 use std::cell::RefCell;
 use std::fmt::Debug;
 
-type Pred<T> = Box<dyn Fn(&T) -> bool>;
 type MM = Combinator<MinAdd<i64>, MaxAdd<i64>>;
 type SMM = Combinator<Combinator<SumAdd<i64>, MinAdd<i64>>, MaxAdd<i64>>;
 /// a `Combinator` whose components both have a non-commutative merge
@@ -33,20 +37,32 @@ struct Style {
 
 trait HItem: SegtreeItem<Self::M> + Clone + Default + Debug + 'static {
     type M: Debug + Clone;
+    /// the harness's own plain observable value of an item / an aggregate
+    type O: Clone + PartialEq + 'static;
     /// `v` or `v@md`: an element may carry a (meaningless, for a leaf) pending modifier of its own, e.g. when it is a
     /// snapshot taken with `ask(i, i)` from another tree
     fn parse_val(tok: &str) -> Option<Self>;
     fn parse_mod(toks: &[&str]) -> Option<Self::M>;
-    fn parse_pred(toks: &[&str]) -> Option<Pred<Self>>;
-    fn view(&self) -> String;
+    /// read the observable value off the public fields of the real item
+    fn obs(&self) -> Self::O;
+    // ---- plain re-implementation of the observable algebra (independent oracle) ----
+    fn o_dflt() -> Self::O;
+    fn o_op(a: &Self::O, b: &Self::O) -> Self::O;
+    fn o_act(m: &Self::M, a: &Self::O) -> Self::O;
+    fn o_view(o: &Self::O) -> String;
+    /// predicate on observable values; the closure given to the real tree is `|x| g(&x.obs())`
+    fn parse_pred(toks: &[&str]) -> Option<Box<dyn Fn(&Self::O) -> bool>>;
+    // ---- generation ----
     fn gen_val(rng: &mut SplitMix64, st: &Style) -> String;
     fn gen_mod(rng: &mut SplitMix64, st: &Style) -> String;
     fn mod_identity(m: &Self::M) -> bool;
     /// `elems[k]` = k-th element in search direction, `aggs[k]` = aggregate after k+1 elements
-    fn gen_pred(rng: &mut SplitMix64, aggs: &[Self], elems: &[Self], rev: bool) -> String;
+    fn gen_pred(rng: &mut SplitMix64, aggs: &[Self::O], elems: &[Self::O], rev: bool) -> String;
 }
 
-fn pred_const<T: 'static>(toks: &[&str]) -> Option<Pred<T>> {
+type Pred<O> = Box<dyn Fn(&O) -> bool>;
+
+fn pred_const<O: 'static>(toks: &[&str]) -> Option<Pred<O>> {
     match toks {
         ["T"] => Some(Box::new(|_| true)),
         ["F"] => Some(Box::new(|_| false)),
@@ -63,7 +79,7 @@ fn int_tok(toks: &[&str], name: &str) -> Option<i64> {
 }
 
 fn around(rng: &mut SplitMix64, x: i64) -> i64 {
-    x + rng.range_i64(-1, 1)
+    x.clamp(-(1 << 42), 1 << 42) + rng.range_i64(-1, 1)
 }
 
 fn pick_const(rng: &mut SplitMix64) -> Option<String> {
@@ -71,6 +87,23 @@ fn pick_const(rng: &mut SplitMix64) -> Option<String> {
         0 => Some("T".into()),
         1 => Some("F".into()),
         _ => None,
+    }
+}
+
+/// `v` / `v@md` for the integer items; plain values go through the item's own `From<i64>`
+fn int_val<T>(tok: &str, plain: fn(i64) -> T, lazy: Option<fn(i64, i64) -> T>) -> Option<T> {
+    match tok.split_once('@') {
+        None => Some(plain(tok.parse::<i64>().ok()?)),
+        Some((v, m)) => Some(lazy?(v.parse::<i64>().ok()?, m.parse::<i64>().ok()?)),
+    }
+}
+
+fn gen_int_val(rng: &mut SplitMix64, st: &Style, lazy: bool) -> String {
+    let v = rng.range_i64(st.vlo, st.vhi);
+    if lazy && rng.chance(1, 6) {
+        format!("{}@{}", v, rng.range_i64(st.mlo, st.mhi))
+    } else {
+        v.to_string()
     }
 }
 
@@ -112,152 +145,238 @@ macro_rules! int_mod {
     };
 }
 
-macro_rules! int_val {
-    ($lazy:expr, $mk:expr) => {
-        fn parse_val(tok: &str) -> Option<Self> {
-            let mk: fn(i64, Option<i64>) -> Option<Self> = $mk;
-            match tok.split_once('@') {
-                None => mk(tok.parse::<i64>().ok()?, None),
-                Some((v, m)) => mk(v.parse::<i64>().ok()?, Some(m.parse::<i64>().ok()?)),
-            }
-        }
-        fn gen_val(rng: &mut SplitMix64, st: &Style) -> String {
-            let v = rng.range_i64(st.vlo, st.vhi);
-            if $lazy && rng.chance(1, 6) {
-                format!("{}@{}", v, rng.range_i64(st.mlo, st.mhi))
-            } else {
-                v.to_string()
-            }
-        }
-    };
-}
-
-fn no_md<T: From<i64>>(v: i64, md: Option<i64>) -> Option<T> {
-    if md.is_some() {
-        None
-    } else {
-        Some(T::from(v))
+fn pred_lt(toks: &[&str]) -> Option<Pred<i64>> {
+    if let Some(c) = int_tok(toks, "lt") {
+        return Some(Box::new(move |x: &i64| *x < c));
     }
+    pred_const(toks)
 }
-fn mk_minadd(v: i64, md: Option<i64>) -> Option<MinAdd<i64>> {
-    Some(MinAdd { v, md: md.unwrap_or(0) })
+fn pred_gt(toks: &[&str]) -> Option<Pred<i64>> {
+    if let Some(c) = int_tok(toks, "gt") {
+        return Some(Box::new(move |x: &i64| *x > c));
+    }
+    pred_const(toks)
 }
-fn mk_maxadd(v: i64, md: Option<i64>) -> Option<MaxAdd<i64>> {
-    Some(MaxAdd { v, md: md.unwrap_or(0) })
+fn gen_lt(rng: &mut SplitMix64, aggs: &[i64]) -> String {
+    pick_const(rng).unwrap_or_else(|| {
+        let x = *rng.pick(aggs);
+        format!("lt {}", around(rng, x) + 1)
+    })
 }
-fn mk_sumadd(v: i64, md: Option<i64>) -> Option<SumAdd<i64>> {
-    Some(SumAdd { v, len: 1, md: md.unwrap_or(0) })
-}
-fn mk_aff(x: i64, md: Option<(i64, i64)>) -> AffHash {
-    AffHash { h: x.rem_euclid(P), pw: B, s: 1, md }
+fn gen_gt(rng: &mut SplitMix64, aggs: &[i64]) -> String {
+    pick_const(rng).unwrap_or_else(|| {
+        let x = *rng.pick(aggs);
+        format!("gt {}", around(rng, x) - 1)
+    })
 }
 
 impl HItem for Min<i64> {
     unit_mod!();
-    int_val!(false, no_md::<Self>);
-    fn parse_pred(toks: &[&str]) -> Option<Pred<Self>> {
-        if let Some(c) = int_tok(toks, "lt") {
-            return Some(Box::new(move |x: &Self| x.v < c));
-        }
-        pred_const(toks)
+    type O = i64;
+    fn parse_val(tok: &str) -> Option<Self> {
+        int_val(tok, Min::from, None)
     }
-    fn view(&self) -> String {
-        self.v.to_string()
+    fn obs(&self) -> i64 {
+        self.v
     }
-    fn gen_pred(rng: &mut SplitMix64, aggs: &[Self], _e: &[Self], _rev: bool) -> String {
-        pick_const(rng).unwrap_or_else(|| format!("lt {}", { let x0 = rng.pick(aggs).v.min(1 << 40); around(rng, x0) } + 1))
+    fn o_dflt() -> i64 {
+        i64::MAX
+    }
+    fn o_op(a: &i64, b: &i64) -> i64 {
+        *a.min(b)
+    }
+    fn o_act(_m: &(), a: &i64) -> i64 {
+        *a
+    }
+    fn o_view(o: &i64) -> String {
+        o.to_string()
+    }
+    fn parse_pred(toks: &[&str]) -> Option<Pred<i64>> {
+        pred_lt(toks)
+    }
+    fn gen_val(rng: &mut SplitMix64, st: &Style) -> String {
+        gen_int_val(rng, st, false)
+    }
+    fn gen_pred(rng: &mut SplitMix64, aggs: &[i64], _e: &[i64], _rev: bool) -> String {
+        gen_lt(rng, aggs)
     }
 }
 
 impl HItem for Max<i64> {
     unit_mod!();
-    int_val!(false, no_md::<Self>);
-    fn parse_pred(toks: &[&str]) -> Option<Pred<Self>> {
-        if let Some(c) = int_tok(toks, "gt") {
-            return Some(Box::new(move |x: &Self| x.v > c));
-        }
-        pred_const(toks)
+    type O = i64;
+    fn parse_val(tok: &str) -> Option<Self> {
+        int_val(tok, Max::from, None)
     }
-    fn view(&self) -> String {
-        self.v.to_string()
+    fn obs(&self) -> i64 {
+        self.v
     }
-    fn gen_pred(rng: &mut SplitMix64, aggs: &[Self], _e: &[Self], _rev: bool) -> String {
-        pick_const(rng).unwrap_or_else(|| format!("gt {}", { let x0 = rng.pick(aggs).v.max(-(1 << 40)); around(rng, x0) } - 1))
+    fn o_dflt() -> i64 {
+        i64::MIN
+    }
+    fn o_op(a: &i64, b: &i64) -> i64 {
+        *a.max(b)
+    }
+    fn o_act(_m: &(), a: &i64) -> i64 {
+        *a
+    }
+    fn o_view(o: &i64) -> String {
+        o.to_string()
+    }
+    fn parse_pred(toks: &[&str]) -> Option<Pred<i64>> {
+        pred_gt(toks)
+    }
+    fn gen_val(rng: &mut SplitMix64, st: &Style) -> String {
+        gen_int_val(rng, st, false)
+    }
+    fn gen_pred(rng: &mut SplitMix64, aggs: &[i64], _e: &[i64], _rev: bool) -> String {
+        gen_gt(rng, aggs)
     }
 }
 
 impl HItem for Sum<i64> {
     unit_mod!();
-    int_val!(false, no_md::<Self>);
-    fn parse_pred(toks: &[&str]) -> Option<Pred<Self>> {
+    type O = i64;
+    fn parse_val(tok: &str) -> Option<Self> {
+        int_val(tok, Sum::from, None)
+    }
+    fn obs(&self) -> i64 {
+        self.v
+    }
+    fn o_dflt() -> i64 {
+        0
+    }
+    fn o_op(a: &i64, b: &i64) -> i64 {
+        a + b
+    }
+    fn o_act(_m: &(), a: &i64) -> i64 {
+        *a
+    }
+    fn o_view(o: &i64) -> String {
+        o.to_string()
+    }
+    fn parse_pred(toks: &[&str]) -> Option<Pred<i64>> {
         if let Some(c) = int_tok(toks, "ge") {
-            return Some(Box::new(move |x: &Self| x.v >= c));
+            return Some(Box::new(move |x: &i64| *x >= c));
         }
         pred_const(toks)
     }
-    fn view(&self) -> String {
-        self.v.to_string()
+    fn gen_val(rng: &mut SplitMix64, st: &Style) -> String {
+        gen_int_val(rng, st, false)
     }
-    fn gen_pred(rng: &mut SplitMix64, aggs: &[Self], _e: &[Self], _rev: bool) -> String {
-        pick_const(rng).unwrap_or_else(|| format!("ge {}", { let x0 = rng.pick(aggs).v; around(rng, x0) }))
+    fn gen_pred(rng: &mut SplitMix64, aggs: &[i64], _e: &[i64], _rev: bool) -> String {
+        pick_const(rng).unwrap_or_else(|| {
+            let x = *rng.pick(aggs);
+            format!("ge {}", around(rng, x))
+        })
     }
 }
 
 impl HItem for MinAdd<i64> {
     int_mod!();
-    int_val!(true, mk_minadd);
-    fn parse_pred(toks: &[&str]) -> Option<Pred<Self>> {
-        if let Some(c) = int_tok(toks, "lt") {
-            return Some(Box::new(move |x: &Self| x.v < c));
-        }
-        pred_const(toks)
+    type O = i64;
+    fn parse_val(tok: &str) -> Option<Self> {
+        int_val(tok, MinAdd::from, Some(|v, md| MinAdd { v, md }))
     }
-    fn view(&self) -> String {
-        self.v.to_string()
+    fn obs(&self) -> i64 {
+        self.v
     }
-    fn gen_pred(rng: &mut SplitMix64, aggs: &[Self], _e: &[Self], _rev: bool) -> String {
-        pick_const(rng).unwrap_or_else(|| format!("lt {}", { let x0 = rng.pick(aggs).v.min(1 << 40); around(rng, x0) } + 1))
+    fn o_dflt() -> i64 {
+        i64::MAX
+    }
+    fn o_op(a: &i64, b: &i64) -> i64 {
+        *a.min(b)
+    }
+    fn o_act(m: &i64, a: &i64) -> i64 {
+        a + m
+    }
+    fn o_view(o: &i64) -> String {
+        o.to_string()
+    }
+    fn parse_pred(toks: &[&str]) -> Option<Pred<i64>> {
+        pred_lt(toks)
+    }
+    fn gen_val(rng: &mut SplitMix64, st: &Style) -> String {
+        gen_int_val(rng, st, true)
+    }
+    fn gen_pred(rng: &mut SplitMix64, aggs: &[i64], _e: &[i64], _rev: bool) -> String {
+        gen_lt(rng, aggs)
     }
 }
 
 impl HItem for MaxAdd<i64> {
     int_mod!();
-    int_val!(true, mk_maxadd);
-    fn parse_pred(toks: &[&str]) -> Option<Pred<Self>> {
-        if let Some(c) = int_tok(toks, "gt") {
-            return Some(Box::new(move |x: &Self| x.v > c));
-        }
-        pred_const(toks)
+    type O = i64;
+    fn parse_val(tok: &str) -> Option<Self> {
+        int_val(tok, MaxAdd::from, Some(|v, md| MaxAdd { v, md }))
     }
-    fn view(&self) -> String {
-        self.v.to_string()
+    fn obs(&self) -> i64 {
+        self.v
     }
-    fn gen_pred(rng: &mut SplitMix64, aggs: &[Self], _e: &[Self], _rev: bool) -> String {
-        pick_const(rng).unwrap_or_else(|| format!("gt {}", { let x0 = rng.pick(aggs).v.max(-(1 << 40)); around(rng, x0) } - 1))
+    fn o_dflt() -> i64 {
+        i64::MIN
+    }
+    fn o_op(a: &i64, b: &i64) -> i64 {
+        *a.max(b)
+    }
+    fn o_act(m: &i64, a: &i64) -> i64 {
+        a + m
+    }
+    fn o_view(o: &i64) -> String {
+        o.to_string()
+    }
+    fn parse_pred(toks: &[&str]) -> Option<Pred<i64>> {
+        pred_gt(toks)
+    }
+    fn gen_val(rng: &mut SplitMix64, st: &Style) -> String {
+        gen_int_val(rng, st, true)
+    }
+    fn gen_pred(rng: &mut SplitMix64, aggs: &[i64], _e: &[i64], _rev: bool) -> String {
+        gen_gt(rng, aggs)
     }
 }
 
 impl HItem for SumAdd<i64> {
     int_mod!();
-    int_val!(true, mk_sumadd);
-    fn parse_pred(toks: &[&str]) -> Option<Pred<Self>> {
+    /// (sum, number of elements)
+    type O = (i64, i64);
+    fn parse_val(tok: &str) -> Option<Self> {
+        int_val(tok, SumAdd::from, Some(|v, md| SumAdd { v, len: 1, md }))
+    }
+    fn obs(&self) -> (i64, i64) {
+        (self.v, self.len)
+    }
+    fn o_dflt() -> (i64, i64) {
+        (0, 0)
+    }
+    fn o_op(a: &(i64, i64), b: &(i64, i64)) -> (i64, i64) {
+        (a.0 + b.0, a.1 + b.1)
+    }
+    fn o_act(m: &i64, a: &(i64, i64)) -> (i64, i64) {
+        (a.0 + m * a.1, a.1)
+    }
+    fn o_view(o: &(i64, i64)) -> String {
+        format!("({},{})", o.0, o.1)
+    }
+    fn parse_pred(toks: &[&str]) -> Option<Pred<(i64, i64)>> {
         if let Some(c) = int_tok(toks, "ge") {
-            return Some(Box::new(move |x: &Self| x.v >= c));
+            return Some(Box::new(move |x: &(i64, i64)| x.0 >= c));
         }
         if let Some(c) = int_tok(toks, "len") {
-            return Some(Box::new(move |x: &Self| x.len >= c));
+            return Some(Box::new(move |x: &(i64, i64)| x.1 >= c));
         }
         pred_const(toks)
     }
-    fn view(&self) -> String {
-        format!("({},{})", self.v, self.len)
+    fn gen_val(rng: &mut SplitMix64, st: &Style) -> String {
+        gen_int_val(rng, st, true)
     }
-    fn gen_pred(rng: &mut SplitMix64, aggs: &[Self], _e: &[Self], _rev: bool) -> String {
+    fn gen_pred(rng: &mut SplitMix64, aggs: &[(i64, i64)], _e: &[(i64, i64)], _rev: bool) -> String {
         pick_const(rng).unwrap_or_else(|| {
             if rng.chance(1, 4) {
                 format!("len {}", rng.range_i64(1, aggs.len() as i64 + 1))
             } else {
-                format!("ge {}", { let x0 = rng.pick(aggs).v; around(rng, x0) })
+                let x = rng.pick(aggs).0;
+                format!("ge {}", around(rng, x))
             }
         })
     }
@@ -265,29 +384,48 @@ impl HItem for SumAdd<i64> {
 
 impl HItem for MM {
     int_mod!();
-    int_val!(true, |v, md| Some(Combinator(mk_minadd(v, md)?, mk_maxadd(v, md)?)));
-    fn parse_pred(toks: &[&str]) -> Option<Pred<Self>> {
+    /// (min, max)
+    type O = (i64, i64);
+    fn parse_val(tok: &str) -> Option<Self> {
+        int_val(tok, MM::from, Some(|v, md| Combinator(MinAdd { v, md }, MaxAdd { v, md })))
+    }
+    fn obs(&self) -> (i64, i64) {
+        (self.0.v, self.1.v)
+    }
+    fn o_dflt() -> (i64, i64) {
+        (i64::MAX, i64::MIN)
+    }
+    fn o_op(a: &(i64, i64), b: &(i64, i64)) -> (i64, i64) {
+        (a.0.min(b.0), a.1.max(b.1))
+    }
+    fn o_act(m: &i64, a: &(i64, i64)) -> (i64, i64) {
+        (a.0 + m, a.1 + m)
+    }
+    fn o_view(o: &(i64, i64)) -> String {
+        format!("({},{})", o.0, o.1)
+    }
+    fn parse_pred(toks: &[&str]) -> Option<Pred<(i64, i64)>> {
         if let Some(c) = int_tok(toks, "lt") {
-            return Some(Box::new(move |x: &Self| x.0.v < c));
+            return Some(Box::new(move |x: &(i64, i64)| x.0 < c));
         }
         if let Some(c) = int_tok(toks, "gt") {
-            return Some(Box::new(move |x: &Self| x.1.v > c));
+            return Some(Box::new(move |x: &(i64, i64)| x.1 > c));
         }
         if let Some(c) = int_tok(toks, "spread") {
-            return Some(Box::new(move |x: &Self| x.1.v - x.0.v >= c));
+            return Some(Box::new(move |x: &(i64, i64)| x.1 as i128 - x.0 as i128 >= c as i128));
         }
         pred_const(toks)
     }
-    fn view(&self) -> String {
-        format!("({},{})", self.0.v, self.1.v)
+    fn gen_val(rng: &mut SplitMix64, st: &Style) -> String {
+        gen_int_val(rng, st, true)
     }
-    fn gen_pred(rng: &mut SplitMix64, aggs: &[Self], _e: &[Self], _rev: bool) -> String {
+    fn gen_pred(rng: &mut SplitMix64, aggs: &[(i64, i64)], _e: &[(i64, i64)], _rev: bool) -> String {
         pick_const(rng).unwrap_or_else(|| {
-            let a = rng.pick(aggs).clone();
+            let a = *rng.pick(aggs);
             match rng.below(3) {
-                0 => format!("lt {}", around(rng, a.0.v.min(1 << 40)) + 1),
-                1 => format!("gt {}", around(rng, a.1.v.max(-(1 << 40))) - 1),
-                _ => format!("spread {}", around(rng, (a.1.v as i128 - a.0.v as i128).clamp(-(1 << 40), 1 << 40) as i64)),
+                0 => format!("lt {}", around(rng, a.0) + 1),
+                1 => format!("gt {}", around(rng, a.1) - 1),
+                _ => format!("spread {}", around(rng, (a.1 as i128 - a.0 as i128).clamp(-(1 << 42), 1 << 42) as i64)),
             }
         })
     }
@@ -295,36 +433,76 @@ impl HItem for MM {
 
 impl HItem for SMM {
     int_mod!();
-    int_val!(true, |v, md| Some(Combinator(Combinator(mk_sumadd(v, md)?, mk_minadd(v, md)?), mk_maxadd(v, md)?)));
-    fn parse_pred(toks: &[&str]) -> Option<Pred<Self>> {
+    /// (sum, number of elements, min, max)
+    type O = (i64, i64, i64, i64);
+    fn parse_val(tok: &str) -> Option<Self> {
+        int_val(
+            tok,
+            SMM::from,
+            Some(|v, md| Combinator(Combinator(SumAdd { v, len: 1, md }, MinAdd { v, md }), MaxAdd { v, md })),
+        )
+    }
+    fn obs(&self) -> Self::O {
+        (self.0 .0.v, self.0 .0.len, self.0 .1.v, self.1.v)
+    }
+    fn o_dflt() -> Self::O {
+        (0, 0, i64::MAX, i64::MIN)
+    }
+    fn o_op(a: &Self::O, b: &Self::O) -> Self::O {
+        (a.0 + b.0, a.1 + b.1, a.2.min(b.2), a.3.max(b.3))
+    }
+    fn o_act(m: &i64, a: &Self::O) -> Self::O {
+        (a.0 + m * a.1, a.1, a.2 + m, a.3 + m)
+    }
+    fn o_view(o: &Self::O) -> String {
+        format!("((({},{}),{}),{})", o.0, o.1, o.2, o.3)
+    }
+    fn parse_pred(toks: &[&str]) -> Option<Pred<Self::O>> {
         if let Some(c) = int_tok(toks, "ge") {
-            return Some(Box::new(move |x: &Self| x.0 .0.v >= c));
+            return Some(Box::new(move |x: &Self::O| x.0 >= c));
         }
         if let Some(c) = int_tok(toks, "len") {
-            return Some(Box::new(move |x: &Self| x.0 .0.len >= c));
+            return Some(Box::new(move |x: &Self::O| x.1 >= c));
         }
         if let Some(c) = int_tok(toks, "lt") {
-            return Some(Box::new(move |x: &Self| x.0 .1.v < c));
+            return Some(Box::new(move |x: &Self::O| x.2 < c));
         }
         if let Some(c) = int_tok(toks, "gt") {
-            return Some(Box::new(move |x: &Self| x.1.v > c));
+            return Some(Box::new(move |x: &Self::O| x.3 > c));
         }
         pred_const(toks)
     }
-    fn view(&self) -> String {
-        format!("((({},{}),{}),{})", self.0 .0.v, self.0 .0.len, self.0 .1.v, self.1.v)
+    fn gen_val(rng: &mut SplitMix64, st: &Style) -> String {
+        gen_int_val(rng, st, true)
     }
-    fn gen_pred(rng: &mut SplitMix64, aggs: &[Self], _e: &[Self], _rev: bool) -> String {
+    fn gen_pred(rng: &mut SplitMix64, aggs: &[Self::O], _e: &[Self::O], _rev: bool) -> String {
         pick_const(rng).unwrap_or_else(|| {
-            let a = rng.pick(aggs).clone();
+            let a = *rng.pick(aggs);
             match rng.below(4) {
-                0 => format!("ge {}", around(rng, a.0 .0.v)),
+                0 => format!("ge {}", around(rng, a.0)),
                 1 => format!("len {}", rng.range_i64(1, aggs.len() as i64 + 1)),
-                2 => format!("lt {}", around(rng, a.0 .1.v.min(1 << 40)) + 1),
-                _ => format!("gt {}", around(rng, a.1.v.max(-(1 << 40))) - 1),
+                2 => format!("lt {}", around(rng, a.2) + 1),
+                _ => format!("gt {}", around(rng, a.3) - 1),
             }
         })
     }
+}
+
+// ---- affHash: plain polynomial hash arithmetic, written again here (not the item's own merge/modify) ----
+
+type AffO = (i64, i64, i64);
+
+fn aff_o_op(a: &AffO, b: &AffO) -> AffO {
+    let h = ((a.0 as i128 * b.1 as i128 + b.0 as i128) % P as i128) as i64;
+    let pw = ((a.1 as i128 * b.1 as i128) % P as i128) as i64;
+    let s = ((a.2 as i128 * b.1 as i128 + b.2 as i128) % P as i128) as i64;
+    (h, pw, s)
+}
+fn aff_o_act(m: &(i64, i64), a: &AffO) -> AffO {
+    (((m.0 as i128 * a.0 as i128 + m.1 as i128 * a.2 as i128) % P as i128) as i64, a.1, a.2)
+}
+fn aff_o_view(o: &AffO) -> String {
+    format!("({},{},{})", o.0, o.1, o.2)
 }
 
 /// `(hash, B^k)` of every prefix (suffix) of `w`
@@ -359,6 +537,12 @@ fn parse_aff_val(tok: &str) -> Option<(i64, Option<(i64, i64)>)> {
         }
     }
 }
+fn mk_aff(x: i64, md: Option<(i64, i64)>) -> AffHash {
+    match md {
+        None => AffHash::from(x),
+        Some(_) => AffHash { h: x.rem_euclid(P), pw: B, s: 1, md },
+    }
+}
 fn gen_aff_val(rng: &mut SplitMix64, st: &Style) -> String {
     let x = rng.range_i64(0, st.vhi.max(1));
     if rng.chance(1, 6) {
@@ -367,61 +551,30 @@ fn gen_aff_val(rng: &mut SplitMix64, st: &Style) -> String {
         x.to_string()
     }
 }
+fn parse_aff_mod(toks: &[&str]) -> Option<(i64, i64)> {
+    if toks.len() == 2 {
+        Some((toks[0].parse().ok()?, toks[1].parse().ok()?))
+    } else {
+        None
+    }
+}
+fn gen_aff_mod(rng: &mut SplitMix64, st: &Style) -> String {
+    // x -> a*x + b: assignments (a = 0), additions (a = 1), identity, general affine maps
+    let big = st.mhi > 1000;
+    let hi = if big { P - 1 } else { 9 };
+    match rng.below(8) {
+        0 => format!("0 {}", rng.range_i64(0, hi)),
+        1 => format!("1 {}", rng.range_i64(0, hi)),
+        2 => "1 0".to_string(),
+        _ => format!("{} {}", rng.range_i64(0, hi), rng.range_i64(0, hi)),
+    }
+}
 
 fn parse_commas(s: &str) -> Option<Vec<i64>> {
     if s == "-" {
         return Some(vec![]);
     }
     s.split(',').map(|t| t.parse::<i64>().ok()).collect()
-}
-
-impl HItem for AffHash {
-    type M = (i64, i64);
-    fn parse_val(tok: &str) -> Option<Self> {
-        let (x, md) = parse_aff_val(tok)?;
-        Some(mk_aff(x, md))
-    }
-    fn parse_mod(toks: &[&str]) -> Option<(i64, i64)> {
-        if toks.len() == 2 {
-            Some((toks[0].parse().ok()?, toks[1].parse().ok()?))
-        } else {
-            None
-        }
-    }
-    fn parse_pred(toks: &[&str]) -> Option<Pred<Self>> {
-        if toks.len() == 2 && (toks[0] == "npre" || toks[0] == "nsuf") {
-            let w = parse_commas(toks[1])?;
-            let set = if toks[0] == "npre" { aff_prefixes(&w) } else { aff_suffixes(&w) };
-            return Some(Box::new(move |x: &Self| !set.contains(&(x.h, x.pw))));
-        }
-        pred_const(toks)
-    }
-    fn view(&self) -> String {
-        format!("({},{},{})", self.h, self.pw, self.s)
-    }
-    fn gen_val(rng: &mut SplitMix64, st: &Style) -> String {
-        gen_aff_val(rng, st)
-    }
-    fn gen_mod(rng: &mut SplitMix64, st: &Style) -> String {
-        // x -> a*x + b: assignments (a = 0), additions (a = 1), identity, general affine maps
-        let big = st.mhi > 1000;
-        let hi = if big { P - 1 } else { 9 };
-        match rng.below(8) {
-            0 => format!("0 {}", rng.range_i64(0, hi)),
-            1 => format!("1 {}", rng.range_i64(0, hi)),
-            2 => "1 0".to_string(),
-            _ => format!("{} {}", rng.range_i64(0, hi), rng.range_i64(0, hi)),
-        }
-    }
-    fn mod_identity(m: &(i64, i64)) -> bool {
-        *m == (1, 0)
-    }
-    fn gen_pred(rng: &mut SplitMix64, _aggs: &[Self], elems: &[Self], rev: bool) -> String {
-        pick_const(rng).unwrap_or_else(|| {
-            let hs: Vec<i64> = elems.iter().map(|e| e.h).collect();
-            format!("{} {}", if rev { "nsuf" } else { "npre" }, gen_aff_word(rng, &hs, rev))
-        })
-    }
 }
 
 fn gen_aff_word(rng: &mut SplitMix64, hs: &[i64], rev: bool) -> String {
@@ -441,43 +594,106 @@ fn gen_aff_word(rng: &mut SplitMix64, hs: &[i64], rev: bool) -> String {
     s.join(",")
 }
 
-impl HItem for AA {
+impl HItem for AffHash {
     type M = (i64, i64);
+    type O = AffO;
     fn parse_val(tok: &str) -> Option<Self> {
         let (x, md) = parse_aff_val(tok)?;
-        Some(Combinator(mk_aff(x, md), mk_aff(2 * x + 1, md)))
+        Some(mk_aff(x, md))
     }
     fn parse_mod(toks: &[&str]) -> Option<(i64, i64)> {
-        AffHash::parse_mod(toks)
+        parse_aff_mod(toks)
     }
-    fn parse_pred(toks: &[&str]) -> Option<Pred<Self>> {
-        if toks.len() == 2 && ["npre0", "nsuf0", "npre1", "nsuf1"].contains(&toks[0]) {
+    fn obs(&self) -> AffO {
+        (self.h, self.pw, self.s)
+    }
+    fn o_dflt() -> AffO {
+        (0, 1, 0)
+    }
+    fn o_op(a: &AffO, b: &AffO) -> AffO {
+        aff_o_op(a, b)
+    }
+    fn o_act(m: &(i64, i64), a: &AffO) -> AffO {
+        aff_o_act(m, a)
+    }
+    fn o_view(o: &AffO) -> String {
+        aff_o_view(o)
+    }
+    fn parse_pred(toks: &[&str]) -> Option<Pred<AffO>> {
+        if toks.len() == 2 && (toks[0] == "npre" || toks[0] == "nsuf") {
             let w = parse_commas(toks[1])?;
-            let set = if toks[0].starts_with("npre") { aff_prefixes(&w) } else { aff_suffixes(&w) };
-            return Some(if toks[0].ends_with('0') {
-                Box::new(move |x: &Self| !set.contains(&(x.0.h, x.0.pw)))
-            } else {
-                Box::new(move |x: &Self| !set.contains(&(x.1.h, x.1.pw)))
-            });
+            let set = if toks[0] == "npre" { aff_prefixes(&w) } else { aff_suffixes(&w) };
+            return Some(Box::new(move |x: &AffO| !set.contains(&(x.0, x.1))));
         }
         pred_const(toks)
-    }
-    fn view(&self) -> String {
-        format!("({},{})", self.0.view(), self.1.view())
     }
     fn gen_val(rng: &mut SplitMix64, st: &Style) -> String {
         gen_aff_val(rng, st)
     }
     fn gen_mod(rng: &mut SplitMix64, st: &Style) -> String {
-        AffHash::gen_mod(rng, st)
+        gen_aff_mod(rng, st)
     }
     fn mod_identity(m: &(i64, i64)) -> bool {
         *m == (1, 0)
     }
-    fn gen_pred(rng: &mut SplitMix64, _aggs: &[Self], elems: &[Self], rev: bool) -> String {
+    fn gen_pred(rng: &mut SplitMix64, _aggs: &[AffO], elems: &[AffO], rev: bool) -> String {
+        pick_const(rng).unwrap_or_else(|| {
+            let hs: Vec<i64> = elems.iter().map(|e| e.0).collect();
+            format!("{} {}", if rev { "nsuf" } else { "npre" }, gen_aff_word(rng, &hs, rev))
+        })
+    }
+}
+
+impl HItem for AA {
+    type M = (i64, i64);
+    type O = (AffO, AffO);
+    fn parse_val(tok: &str) -> Option<Self> {
+        let (x, md) = parse_aff_val(tok)?;
+        Some(Combinator(mk_aff(x, md), mk_aff(2 * x + 1, md)))
+    }
+    fn parse_mod(toks: &[&str]) -> Option<(i64, i64)> {
+        parse_aff_mod(toks)
+    }
+    fn obs(&self) -> Self::O {
+        ((self.0.h, self.0.pw, self.0.s), (self.1.h, self.1.pw, self.1.s))
+    }
+    fn o_dflt() -> Self::O {
+        ((0, 1, 0), (0, 1, 0))
+    }
+    fn o_op(a: &Self::O, b: &Self::O) -> Self::O {
+        (aff_o_op(&a.0, &b.0), aff_o_op(&a.1, &b.1))
+    }
+    fn o_act(m: &(i64, i64), a: &Self::O) -> Self::O {
+        (aff_o_act(m, &a.0), aff_o_act(m, &a.1))
+    }
+    fn o_view(o: &Self::O) -> String {
+        format!("({},{})", aff_o_view(&o.0), aff_o_view(&o.1))
+    }
+    fn parse_pred(toks: &[&str]) -> Option<Pred<Self::O>> {
+        if toks.len() == 2 && ["npre0", "nsuf0", "npre1", "nsuf1"].contains(&toks[0]) {
+            let w = parse_commas(toks[1])?;
+            let set = if toks[0].starts_with("npre") { aff_prefixes(&w) } else { aff_suffixes(&w) };
+            return Some(if toks[0].ends_with('0') {
+                Box::new(move |x: &Self::O| !set.contains(&(x.0 .0, x.0 .1)))
+            } else {
+                Box::new(move |x: &Self::O| !set.contains(&(x.1 .0, x.1 .1)))
+            });
+        }
+        pred_const(toks)
+    }
+    fn gen_val(rng: &mut SplitMix64, st: &Style) -> String {
+        gen_aff_val(rng, st)
+    }
+    fn gen_mod(rng: &mut SplitMix64, st: &Style) -> String {
+        gen_aff_mod(rng, st)
+    }
+    fn mod_identity(m: &(i64, i64)) -> bool {
+        *m == (1, 0)
+    }
+    fn gen_pred(rng: &mut SplitMix64, _aggs: &[Self::O], elems: &[Self::O], rev: bool) -> String {
         pick_const(rng).unwrap_or_else(|| {
             let c = rng.below(2);
-            let hs: Vec<i64> = elems.iter().map(|e| if c == 0 { e.0.h } else { e.1.h }).collect();
+            let hs: Vec<i64> = elems.iter().map(|e| if c == 0 { e.0 .0 } else { e.1 .0 }).collect();
             format!("{}{} {}", if rev { "nsuf" } else { "npre" }, c, gen_aff_word(rng, &hs, rev))
         })
     }
@@ -485,6 +701,7 @@ impl HItem for AA {
 
 impl HItem for StrCat {
     type M = (u64, u64);
+    type O = String;
     fn parse_val(tok: &str) -> Option<Self> {
         let (w, md) = match tok.split_once('@') {
             None => (tok, None),
@@ -506,23 +723,45 @@ impl HItem for StrCat {
             None
         }
     }
-    fn parse_pred(toks: &[&str]) -> Option<Pred<Self>> {
-        if toks.len() == 2 && toks[0] == "npre" && toks[1].bytes().all(|c| c.is_ascii_lowercase()) && !toks[1].is_empty() {
+    fn obs(&self) -> String {
+        self.s.clone()
+    }
+    fn o_dflt() -> String {
+        String::new()
+    }
+    fn o_op(a: &String, b: &String) -> String {
+        let mut s = a.clone();
+        s.push_str(b);
+        s
+    }
+    fn o_act(m: &(u64, u64), a: &String) -> String {
+        // written out again: shift every letter by m.1 (kind 0) or overwrite every letter with letter m.1
+        a.bytes()
+            .map(|c| {
+                let x = (c - b'a') as u64;
+                let y = if m.0 == 0 { (x + m.1) % 26 } else { m.1 % 26 };
+                (y as u8 + b'a') as char
+            })
+            .collect()
+    }
+    fn o_view(o: &String) -> String {
+        format!("\"{}\"", o)
+    }
+    fn parse_pred(toks: &[&str]) -> Option<Pred<String>> {
+        let word_ok = |t: &str| !t.is_empty() && t.bytes().all(|c| c.is_ascii_lowercase());
+        if toks.len() == 2 && toks[0] == "npre" && word_ok(toks[1]) {
             let w = toks[1].to_string();
-            return Some(Box::new(move |x: &Self| !w.starts_with(&x.s)));
+            return Some(Box::new(move |x: &String| !w.starts_with(x.as_str())));
         }
-        if toks.len() == 2 && toks[0] == "nsuf" && toks[1].bytes().all(|c| c.is_ascii_lowercase()) && !toks[1].is_empty() {
+        if toks.len() == 2 && toks[0] == "nsuf" && word_ok(toks[1]) {
             let w = toks[1].to_string();
-            return Some(Box::new(move |x: &Self| !w.ends_with(&x.s)));
+            return Some(Box::new(move |x: &String| !w.ends_with(x.as_str())));
         }
         if toks.len() == 2 && toks[0] == "slen" {
             let c: usize = toks[1].parse().ok()?;
-            return Some(Box::new(move |x: &Self| x.s.len() >= c));
+            return Some(Box::new(move |x: &String| x.len() >= c));
         }
         pred_const(toks)
-    }
-    fn view(&self) -> String {
-        format!("\"{}\"", self.s)
     }
     fn gen_val(rng: &mut SplitMix64, _st: &Style) -> String {
         let len = 1 + rng.below(2);
@@ -543,16 +782,16 @@ impl HItem for StrCat {
     fn mod_identity(m: &(u64, u64)) -> bool {
         *m == (0, 0)
     }
-    fn gen_pred(rng: &mut SplitMix64, aggs: &[Self], elems: &[Self], rev: bool) -> String {
+    fn gen_pred(rng: &mut SplitMix64, aggs: &[String], elems: &[String], rev: bool) -> String {
         pick_const(rng).unwrap_or_else(|| {
             if rng.chance(1, 4) {
-                return format!("slen {}", rng.below(aggs.last().unwrap().s.len() as u64 + 2));
+                return format!("slen {}", rng.below(aggs.last().unwrap().len() as u64 + 2));
             }
             let j = rng.below(elems.len() as u64 + 1) as usize;
-            let mut parts: Vec<String> = elems[..j].iter().map(|e| e.s.clone()).collect();
+            let mut parts: Vec<String> = elems[..j].to_vec();
             if j < elems.len() && rng.chance(7, 8) {
                 // same element with one letter changed (first letter in search direction)
-                let mut b = elems[j].s.clone().into_bytes();
+                let mut b = elems[j].clone().into_bytes();
                 let k = if rev { b.len() - 1 } else { 0 };
                 b[k] = b'a' + ((b[k] - b'a') + 1 + rng.below(3) as u8) % 26;
                 parts.push(String::from_utf8(b).unwrap());
@@ -587,20 +826,20 @@ fn show_idx(o: Option<usize>) -> String {
     }
 }
 
-/// aggregates of the plain vector in search direction (independent oracle)
-fn dir_aggs<T: HItem>(shadow: &[T], pos: usize, rev: bool) -> (Vec<T>, Vec<T>) {
+/// aggregates of the plain shadow vector in search direction, folded with the harness's own `o_op`
+fn dir_aggs<T: HItem>(shadow: &[T::O], pos: usize, rev: bool) -> (Vec<T::O>, Vec<T::O>) {
     let mut aggs = Vec::new();
     let mut elems = Vec::new();
-    let mut acc = T::default();
+    let mut acc = T::o_dflt();
     if rev {
         for k in (0..=pos).rev() {
-            acc = T::merge(&shadow[k], &acc);
+            acc = T::o_op(&shadow[k], &acc);
             aggs.push(acc.clone());
             elems.push(shadow[k].clone());
         }
     } else {
         for k in pos..shadow.len() {
-            acc = T::merge(&acc, &shadow[k]);
+            acc = T::o_op(&acc, &shadow[k]);
             aggs.push(acc.clone());
             elems.push(shadow[k].clone());
         }
@@ -627,10 +866,12 @@ fn run_history<T: HItem>(ctor: &str, n: usize, vals: &[&str], ops: &[&str]) -> S
         Some(v) => v,
         None => return INVALID.into(),
     };
-    let (built, mut shadow): (Result<Segtree<T, T::M>, String>, Vec<T>) = match ctor {
-        "new" if vals.len() == 1 => (catch(|| Segtree::new(n, vals[0].clone())), vec![vals[0].clone(); n]),
-        "slice" if vals.len() == n => (catch(|| Segtree::from_slice(&vals)), vals.clone()),
-        "iter" if vals.len() == n => (catch(|| Segtree::from_iter(vals.clone().into_iter())), vals.clone()),
+    let (built, mut shadow): (Result<Segtree<T, T::M>, String>, Vec<T::O>) = match ctor {
+        "new" if vals.len() == 1 => (catch(|| Segtree::new(n, vals[0].clone())), vec![vals[0].obs(); n]),
+        "slice" if vals.len() == n => (catch(|| Segtree::from_slice(&vals)), vals.iter().map(|v| v.obs()).collect()),
+        "iter" if vals.len() == n => {
+            (catch(|| Segtree::from_iter(vals.clone().into_iter())), vals.iter().map(|v| v.obs()).collect())
+        }
         _ => return INVALID.into(),
     };
     let mut tree = match built {
@@ -647,12 +888,15 @@ fn run_history<T: HItem>(ctor: &str, n: usize, vals: &[&str], ops: &[&str]) -> S
                     (Ok(i), Some(v)) => (i, v),
                     _ => return INVALID.into(),
                 };
-                let r = res_str(catch(|| tree.set(i, v.clone())), |_| ".".into());
+                let o = v.obs();
+                let r = res_str(catch(|| tree.set(i, v)), |_| ".".into());
                 if i < n {
-                    shadow[i] = v;
+                    shadow[i] = o;
+                    views.push(r.clone());
+                } else {
+                    views.push("ood".into());
                 }
-                raws.push(r.clone());
-                views.push(r);
+                raws.push(r);
             }
             ["mod", l, r, mt @ ..] => {
                 let (l, r, m) = match (l.parse::<usize>(), r.parse::<usize>(), T::parse_mod(mt)) {
@@ -662,32 +906,35 @@ fn run_history<T: HItem>(ctor: &str, n: usize, vals: &[&str], ops: &[&str]) -> S
                 let res = res_str(catch(|| tree.modify(l, r, &m)), |_| ".".into());
                 if l <= r && r < n {
                     for x in shadow[l..=r].iter_mut() {
-                        x.modify(&m);
+                        *x = T::o_act(&m, x);
                     }
+                    views.push(res.clone());
+                } else {
+                    views.push("ood".into());
                 }
-                raws.push(res.clone());
-                views.push(res);
+                raws.push(res);
             }
             ["ask", l, r] => {
                 let (l, r) = match (l.parse::<usize>(), r.parse::<usize>()) {
                     (Ok(l), Ok(r)) => (l, r),
                     _ => return INVALID.into(),
                 };
+                let in_dom = l <= r && r < n;
                 match catch(|| tree.ask(l, r)) {
                     Ok(x) => {
                         raws.push(format!("{:?}", x));
-                        views.push(x.view());
+                        views.push(if in_dom { T::o_view(&x.obs()) } else { "ood".into() });
                     }
                     Err(e) => {
                         raws.push(e.clone());
-                        views.push(e);
+                        views.push(if in_dom { e } else { "ood".into() });
                     }
                 }
             }
             [kind @ ("lb" | "lbr"), pos, pt @ ..] => {
                 let rev = *kind == "lbr";
-                let (pos, pred) = match (pos.parse::<usize>(), T::parse_pred(pt)) {
-                    (Ok(p), Some(f)) => (p, f),
+                let (pos, g) = match (pos.parse::<usize>(), T::parse_pred(pt)) {
+                    (Ok(p), Some(g)) => (p, g),
                     _ => return INVALID.into(),
                 };
                 if pos >= n {
@@ -696,22 +943,24 @@ fn run_history<T: HItem>(ctor: &str, n: usize, vals: &[&str], ops: &[&str]) -> S
                 let log: RefCell<Vec<T>> = RefCell::new(Vec::new());
                 let f = |x: &T| {
                     log.borrow_mut().push(x.clone());
-                    pred(x)
+                    g(&x.obs())
                 };
                 let res = if rev { catch(|| tree.lower_bound_rev(pos, f)) } else { catch(|| tree.lower_bound(pos, f)) };
                 match res {
                     Ok(o) => {
                         let log = log.into_inner();
                         raws.push(format!("{} {:?}", show_idx(o), log));
-                        let (aggs, _) = dir_aggs(&shadow, pos, rev);
-                        let flags: Vec<bool> = aggs.iter().map(|a| pred(a)).collect();
-                        if monotone(&flags) {
-                            let av: Vec<String> = aggs.iter().map(|a| a.view()).collect();
-                            let ok = log.iter().all(|p| av.contains(&p.view()));
-                            views.push(format!("{} {}", show_idx(o), if ok { "P" } else { "p!" }));
-                        } else {
-                            views.push("nm".into());
-                        }
+                        let (aggs, _) = dir_aggs::<T>(&shadow, pos, rev);
+                        let flags: Vec<bool> = aggs.iter().map(|a| g(a)).collect();
+                        let probes: Vec<T::O> = log.iter().map(|p| p.obs()).collect();
+                        let is_range = probes.iter().all(|p| aggs.contains(p));
+                        let pv: Vec<String> = probes.iter().map(|p| T::o_view(p)).collect();
+                        views.push(format!(
+                            "{} [{}] {}",
+                            if monotone(&flags) { show_idx(o) } else { "nm".into() },
+                            pv.join(","),
+                            if is_range { "P" } else { "p!" }
+                        ));
                     }
                     Err(e) => {
                         raws.push(e.clone());
@@ -723,7 +972,7 @@ fn run_history<T: HItem>(ctor: &str, n: usize, vals: &[&str], ops: &[&str]) -> S
                 Ok(s) => {
                     raws.push(s);
                     // the observable values, by a second route
-                    let vs = catch(|| (0..n).map(|i| tree.ask(i, i).view()).collect::<Vec<_>>());
+                    let vs = catch(|| (0..n).map(|i| T::o_view(&tree.ask(i, i).obs())).collect::<Vec<_>>());
                     views.push(res_str(vs, |v| format!("[{}]", v.join(","))));
                 }
                 Err(e) => {
@@ -737,21 +986,23 @@ fn run_history<T: HItem>(ctor: &str, n: usize, vals: &[&str], ops: &[&str]) -> S
     out2(&raws.join(" ; "), &views.join(" ; "))
 }
 
-fn dispatch_run(item: &str, ctor: &str, n: usize, vals: &[&str], ops: &[&str]) -> String {
-    match item {
-        "min" => run_history::<Min<i64>>(ctor, n, vals, ops),
-        "max" => run_history::<Max<i64>>(ctor, n, vals, ops),
-        "sum" => run_history::<Sum<i64>>(ctor, n, vals, ops),
-        "minadd" => run_history::<MinAdd<i64>>(ctor, n, vals, ops),
-        "maxadd" => run_history::<MaxAdd<i64>>(ctor, n, vals, ops),
-        "sumadd" => run_history::<SumAdd<i64>>(ctor, n, vals, ops),
-        "mm" => run_history::<MM>(ctor, n, vals, ops),
-        "smm" => run_history::<SMM>(ctor, n, vals, ops),
-        "aff" => run_history::<AffHash>(ctor, n, vals, ops),
-        "aa" => run_history::<AA>(ctor, n, vals, ops),
-        "str" => run_history::<StrCat>(ctor, n, vals, ops),
-        _ => INVALID.into(),
-    }
+macro_rules! dispatch {
+    ($item:expr, $f:ident, $($arg:expr),*) => {
+        match $item {
+            "min" => Some($f::<Min<i64>>($($arg),*)),
+            "max" => Some($f::<Max<i64>>($($arg),*)),
+            "sum" => Some($f::<Sum<i64>>($($arg),*)),
+            "minadd" => Some($f::<MinAdd<i64>>($($arg),*)),
+            "maxadd" => Some($f::<MaxAdd<i64>>($($arg),*)),
+            "sumadd" => Some($f::<SumAdd<i64>>($($arg),*)),
+            "mm" => Some($f::<MM>($($arg),*)),
+            "smm" => Some($f::<SMM>($($arg),*)),
+            "aff" => Some($f::<AffHash>($($arg),*)),
+            "aa" => Some($f::<AA>($($arg),*)),
+            "str" => Some($f::<StrCat>($($arg),*)),
+            _ => None,
+        }
+    };
 }
 
 fn run_case(line: &str) -> String {
@@ -764,7 +1015,7 @@ fn run_case(line: &str) -> String {
         Ok(n) if n <= 100_000 => n,
         _ => return INVALID.into(),
     };
-    dispatch_run(hdr[0], hdr[1], n, &hdr[3..], &parts[1..])
+    dispatch!(hdr[0], run_history, hdr[1], n, &hdr[3..], &parts[1..]).unwrap_or_else(|| INVALID.into())
 }
 
 // ------------------------------------------------------------------------------------------------------
@@ -876,7 +1127,12 @@ fn pick_range(rng: &mut SplitMix64, n: usize) -> (usize, usize) {
         2 => {
             // aligned to the middle split
             let m = (n - 1) / 2;
-            if rng.chance(1, 2) { (rng.below(m as u64 + 1) as usize, m) } else { ((m + 1).min(n - 1), rng.range_i64((m + 1).min(n - 1) as i64, n as i64 - 1) as usize) }
+            if rng.chance(1, 2) {
+                (rng.below(m as u64 + 1) as usize, m)
+            } else {
+                let lo = (m + 1).min(n - 1);
+                (lo, rng.range_i64(lo as i64, n as i64 - 1) as usize)
+            }
         }
         _ => {
             let a = rng.below(n as u64) as usize;
@@ -898,8 +1154,8 @@ fn weights(focus: &str, n: usize) -> [u64; 6] {
 fn gen_history<T: HItem>(name: &str, rng: &mut SplitMix64, focus: &str, st: &mut Stats, big: bool) -> String {
     let n = if big { *rng.pick(&SIZES_BIG) } else { 1 + rng.below(17) as usize };
     let style = match rng.below(5) {
-        0 => Style { vlo: 0, vhi: 50, mlo: 0, mhi: 20 },               // non-negative: sum thresholds monotone
-        1 => Style { vlo: -5, vhi: 5, mlo: -3, mhi: 3 },               // many ties
+        0 => Style { vlo: 0, vhi: 50, mlo: 0, mhi: 20 }, // non-negative: sum thresholds monotone
+        1 => Style { vlo: -5, vhi: 5, mlo: -3, mhi: 3 }, // many ties
         2 => Style { vlo: -1_000_000_000_000, vhi: 1_000_000_000_000, mlo: -1_000_000_000, mhi: 1_000_000_000 },
         3 => Style { vlo: 0, vhi: 3, mlo: 0, mhi: 2 },
         _ => Style { vlo: -100, vhi: 100, mlo: -50, mhi: 50 },
@@ -908,11 +1164,15 @@ fn gen_history<T: HItem>(name: &str, rng: &mut SplitMix64, focus: &str, st: &mut
     st.bump(&format!("ctor_{}", ctor));
     st.bump(&format!("item_{}", name));
     st.bump(if big { "n_31_to_129" } else { "n_1_to_17" });
-    let vals: Vec<String> = if ctor == "new" { vec![T::gen_val(rng, &style)] } else { (0..n).map(|_| T::gen_val(rng, &style)).collect() };
-    let mut shadow: Vec<T> = if ctor == "new" {
-        vec![T::parse_val(&vals[0]).unwrap(); n]
+    let vals: Vec<String> =
+        if ctor == "new" { vec![T::gen_val(rng, &style)] } else { (0..n).map(|_| T::gen_val(rng, &style)).collect() };
+    if vals.iter().any(|v| v.contains('@')) {
+        st.bump("constructor_values_with_own_pending_modifier");
+    }
+    let mut shadow: Vec<T::O> = if ctor == "new" {
+        vec![T::parse_val(&vals[0]).unwrap().obs(); n]
     } else {
-        vals.iter().map(|v| T::parse_val(v).unwrap()).collect()
+        vals.iter().map(|v| T::parse_val(v).unwrap().obs()).collect()
     };
     let mut tags = Tags::new(n);
     let nops = if big { 8 + rng.below(40) } else { 4 + rng.below(60) } as usize;
@@ -931,7 +1191,7 @@ fn gen_history<T: HItem>(name: &str, rng: &mut SplitMix64, focus: &str, st: &mut
             0 => {
                 let i = rng.below(n as u64) as usize;
                 let v = T::gen_val(rng, &style);
-                shadow[i] = T::parse_val(&v).unwrap();
+                shadow[i] = T::parse_val(&v).unwrap().obs();
                 tags.set(i, 0, 0, n - 1);
                 st.bump("op_set");
                 if tags.crossed > 0 {
@@ -945,7 +1205,7 @@ fn gen_history<T: HItem>(name: &str, rng: &mut SplitMix64, focus: &str, st: &mut
                 let toks: Vec<&str> = mt.split_whitespace().collect();
                 let m = T::parse_mod(&toks).unwrap();
                 for e in shadow[l..=r].iter_mut() {
-                    e.modify(&m);
+                    *e = T::o_act(&m, e);
                 }
                 tags.range(l, r, Some(!T::mod_identity(&m)), 0, 0, n - 1);
                 st.bump("op_modify");
@@ -966,7 +1226,7 @@ fn gen_history<T: HItem>(name: &str, rng: &mut SplitMix64, focus: &str, st: &mut
             3 | 4 => {
                 let rev = k == 4;
                 let pos = rng.below(n as u64) as usize;
-                let (aggs, elems) = dir_aggs(&shadow, pos, rev);
+                let (aggs, elems) = dir_aggs::<T>(&shadow, pos, rev);
                 let pt = T::gen_pred(rng, &aggs, &elems, rev);
                 let toks: Vec<&str> = pt.split_whitespace().collect();
                 let pred = T::parse_pred(&toks).unwrap_or_else(|| panic!("generated predicate does not parse: {}", pt));
@@ -994,7 +1254,7 @@ fn gen_history<T: HItem>(name: &str, rng: &mut SplitMix64, focus: &str, st: &mut
             }
         }
     }
-    // close with the single-element asks ("observe_at": single-element asks after any history)
+    // close with a single-element ask ("observe_at": single-element asks after any history)
     if rng.chance(1, 2) {
         let i = rng.below(n as u64) as usize;
         line.push_str(&format!(" ; ask {} {}", i, i));
@@ -1006,19 +1266,7 @@ fn gen_history<T: HItem>(name: &str, rng: &mut SplitMix64, focus: &str, st: &mut
 const ITEMS: [&str; 11] = ["min", "max", "sum", "minadd", "maxadd", "sumadd", "mm", "smm", "aff", "aa", "str"];
 
 fn gen_one(item: &str, rng: &mut SplitMix64, focus: &str, st: &mut Stats, big: bool) -> String {
-    match item {
-        "min" => gen_history::<Min<i64>>(item, rng, focus, st, big),
-        "max" => gen_history::<Max<i64>>(item, rng, focus, st, big),
-        "sum" => gen_history::<Sum<i64>>(item, rng, focus, st, big),
-        "minadd" => gen_history::<MinAdd<i64>>(item, rng, focus, st, big),
-        "maxadd" => gen_history::<MaxAdd<i64>>(item, rng, focus, st, big),
-        "sumadd" => gen_history::<SumAdd<i64>>(item, rng, focus, st, big),
-        "mm" => gen_history::<MM>(item, rng, focus, st, big),
-        "smm" => gen_history::<SMM>(item, rng, focus, st, big),
-        "aff" => gen_history::<AffHash>(item, rng, focus, st, big),
-        "aa" => gen_history::<AA>(item, rng, focus, st, big),
-        _ => gen_history::<StrCat>(item, rng, focus, st, big),
-    }
+    dispatch!(item, gen_history, item, rng, focus, st, big).expect("unknown item")
 }
 
 /// every history of exactly `len` ops over the alphabet `ops`, closed by `dbg`
@@ -1049,10 +1297,12 @@ fn exhaustive(hdr: &str, ops: &[String], len: usize, emit: &mut dyn FnMut(String
 }
 
 fn alphabet(item: &str, n: usize, searches: bool) -> Vec<String> {
-    let (vals, mods, pf, pr): (&[&str], &[&str], &str, &str) = if item == "aff" {
-        (&["7"], &["2 1", "0 5"], "T", "T")
+    // two modifiers that do not commute; for the searches: a trivially true predicate, an order-sensitive one that
+    // flips inside the array, and (aff) the always-false one
+    let (vals, mods, pf, pr): (&[&str], &[&str], &[&str], &[&str]) = if item == "aff" {
+        (&["7"], &["2 1", "0 5"], &["T", "npre 1,7", "F"], &["T", "nsuf 7,2"])
     } else {
-        (&["c"], &["0 1", "1 4"], "slen 2", "slen 2")
+        (&["c"], &["0 1", "1 4"], &["slen 2", "npre ac"], &["slen 2", "nsuf cb"])
     };
     let mut ops = Vec::new();
     for i in 0..n {
@@ -1070,8 +1320,12 @@ fn alphabet(item: &str, n: usize, searches: bool) -> Vec<String> {
     }
     if searches {
         for p in 0..n {
-            ops.push(format!("lb {} {}", p, pf));
-            ops.push(format!("lbr {} {}", p, pr));
+            for f in pf {
+                ops.push(format!("lb {} {}", p, f));
+            }
+            for f in pr {
+                ops.push(format!("lbr {} {}", p, f));
+            }
         }
     }
     ops
@@ -1093,7 +1347,9 @@ fn gen(args: &Args, emit: &mut dyn FnMut(String), st: &mut Stats) {
             let full = alphabet(item, n, true);
             let lens: &[usize] = if thorough { &[1, 2, 3] } else { &[1, 2] };
             for &len in lens {
-                if len == 3 && n == 4 && !thorough {
+                if len == 3 && n == 4 && !searches {
+                    // the searches of the full alphabet matter for C02 only
+                    exhaustive(&init(n), &alphabet(item, n, false), len, emit, st, "exhaustive_small_scope_histories");
                     continue;
                 }
                 exhaustive(&init(n), &full, len, emit, st, "exhaustive_small_scope_histories");
@@ -1101,7 +1357,12 @@ fn gen(args: &Args, emit: &mut dyn FnMut(String), st: &mut Stats) {
         }
         // longer histories over a reduced alphabet (with the searches when the focus is C02)
         let n3 = alphabet(item, 3, searches);
-        exhaustive(&init(3), &n3, if thorough { 4 } else { 3 }, emit, st, "exhaustive_small_scope_histories");
+        let len3 = match (thorough, searches) {
+            (true, false) => 4,
+            (true, true) | (false, false) => 3,
+            (false, true) => 2,
+        };
+        exhaustive(&init(3), &n3, len3, emit, st, "exhaustive_small_scope_histories");
         let n2 = alphabet(item, 2, searches);
         let len2 = match (thorough, searches) {
             (true, false) => 5,
@@ -1112,7 +1373,13 @@ fn gen(args: &Args, emit: &mut dyn FnMut(String), st: &mut Stats) {
     }
     // (2) random structured histories
     // searches are the expensive part of the Lean side (the specification tries every candidate index afresh)
-    let count = if thorough { if focus == "C02" { 120_000 } else { 200_000 } } else if focus == "C02" { 3_000 } else { 3_500 };
+    let count = if thorough {
+        if focus == "C02" { 120_000 } else { 200_000 }
+    } else if focus == "C02" {
+        3_000
+    } else {
+        3_500
+    };
     for c in 0..count {
         // the lazy and the non-commutative items get more weight
         let item = match rng.below(18) {
@@ -1132,23 +1399,23 @@ fn gen(args: &Args, emit: &mut dyn FnMut(String), st: &mut Stats) {
         emit(gen_one(item, &mut rng, &focus, st, big));
         st.bump("random_histories");
     }
-    // every item × constructor × boundary size at least once
+    // every item × boundary size at least a few times
     for item in ITEMS {
         for _ in 0..(if thorough { 12 } else { 2 }) {
             emit(gen_one(item, &mut rng, &focus, st, true));
             st.bump("random_histories");
         }
     }
-    // (3) out-of-domain stream: the asserts of the public API (the model mirrors them), empty constructors
+    // (3) out-of-domain stream: operations outside 0 <= l <= r < n (view `ood`: only the raw panic is compared with the
+    //     model, as drift), empty constructors
     for item in ["minadd", "aff", "sum"] {
         let v = "1 2 3";
-        emit(format!("{} slice 3 {} ; ask 2 1 ; ask 0 3 ; set 3 1 ; mod 2 1 {} ; mod 1 3 {} ; ask 0 2", item, v,
-                     if item == "aff" { "1 1" } else if item == "sum" { "u" } else { "1" },
-                     if item == "aff" { "1 1" } else if item == "sum" { "u" } else { "1" }));
+        let m = if item == "aff" { "1 1" } else if item == "sum" { "u" } else { "1" };
+        emit(format!("{} slice 3 {} ; ask 2 1 ; ask 0 3 ; set 3 1 ; mod 2 1 {} ; mod 1 3 {} ; ask 0 2", item, v, m, m));
         emit(format!("{} new 0 1 ; ask 0 0", item));
         emit(format!("{} slice 0 ; ask 0 0", item));
         emit(format!("{} iter 0 ; ask 0 0", item));
-        st.add("out_of_domain_asserts", 4);
+        st.add("out_of_domain_lines", 4);
     }
 }
 
